@@ -635,6 +635,51 @@ func runStrutil(cfg Cfg) {
 		}
 	}
 
+	// ---- (a2) the same calls from 8 goroutines at once: an answer depends on its argument only
+	{
+		type cc struct {
+			in   string
+			e, t string
+		}
+		var sub []cc
+		for i, in := range inputs {
+			str := string(in)
+			if (strings.Contains(str, "'") || strings.HasPrefix(str, "~/")) && i%3 == 0 && len(sub) < 40000 {
+				sub = append(sub, cc{str, callEscape(strutil.ShellEscape, str), callEscape(strutil.ShellEscapeExceptTilde, str)})
+			}
+		}
+		var mu sync.Mutex
+		bad := 0
+		var wg sync.WaitGroup
+		for g := 0; g < 8; g++ {
+			wg.Add(1)
+			go func(g int) {
+				defer wg.Done()
+				for k := g; k < len(sub); k += 8 {
+					c := sub[k]
+					var e, t string
+					if (k+g)%2 == 0 {
+						e, t = callEscape(strutil.ShellEscape, c.in), callEscape(strutil.ShellEscapeExceptTilde, c.in)
+					} else {
+						t, e = callEscape(strutil.ShellEscapeExceptTilde, c.in), callEscape(strutil.ShellEscape, c.in)
+					}
+					if e != c.e || t != c.t {
+						mu.Lock()
+						bad++
+						if bad <= 2 {
+							s.Violate("depends-on-other-calls", fmt.Sprintf("with 8 goroutines escaping at the same time, input %q gave ShellEscape=%q / ShellEscapeExceptTilde=%q; alone it gives %q / %q", c.in, e, t, c.e, c.t),
+								map[string]any{"input_hex": hx([]byte(c.in)), "goroutines": 8})
+						}
+						mu.Unlock()
+					}
+				}
+			}(g)
+		}
+		wg.Wait()
+		s.Evaluations += 2 * len(sub)
+		s.Dist["concurrent.calls"] = 2 * len(sub)
+	}
+
 	// ---- (b) direct oracle: what the real shells make of the escaped text
 	const batch = 2000
 	nb := (len(cases) + batch - 1) / batch
